@@ -162,10 +162,12 @@ RICH = {
 lookup ALT1 { sub a by a.alt; } ALT1;
 lookup ALT2 { sub b by b.alt; } ALT2;
 lookup UNUSED { sub c by a; } UNUSED;
+lookup EXT useExtension { sub c' lookup ALT1 a; sub b' lookup ALT2 b; } EXT;
 feature liga { script DFLT; language dflt; sub f i by f_i;
                script latn; language dflt; sub f i by f_i; language TRK exclude_dflt; sub f i by f_i; } liga;
 feature ss01 { script latn; language dflt; sub a' lookup ALT1 b' lookup ALT2 c; sub c' lookup ALT1; } ss01;
 feature ss02 { script DFLT; language dflt; sub a by b; script latn; language dflt; sub a by b; } ss02;
+feature ss04 { script latn; language dflt; lookup EXT; } ss04;
 feature kern { script DFLT; language dflt; pos a b -30; pos f_i a <10 0 25 0>;
                script latn; language dflt; pos a b -30; pos f_i a <10 0 25 0>; } kern;
 """),
